@@ -32,7 +32,7 @@ def requirements(tier):
                              "incompatible_dimension_pairs": 300 * k, "empty_neutral_checked": 300 * k, "empty_absorbing_checked": 300 * k,
                              "commutativity_checked": 1000 * k, "sum_law_checked": 300 * k, "op_np_compared_with": 300 * k,
                              "op_shift": 200 * k, "op_ceil": 200 * k, "op_round": 200 * k, "internal_calls_in_system_workloads": 2000},
-            "required_classes": ["pairs", "system", "tz_aware", "naive", "disjoint_index", "gapped_index"]}
+            "required_classes": ["pairs", "system", "tz_aware", "naive", "disjoint_index", "gapped_index", "same_span_different_gaps"]}
 
 
 def rand_scalar(rnd, E):
@@ -83,9 +83,24 @@ def run_pairs(case, rnd, E):
     descs = []
     nt = False
     for _ in range(PAIRS):
-        a, da, ta = operand(rnd, E, classes)
-        # bias towards same tz-kind so that hourly pairs are usually combinable
-        b, db, tb = operand(rnd, E, classes, tz=ta if (ta is not None and rnd.random() < 0.8) else None)
+        if rnd.random() < 0.12:
+            # two series with the same first and last hour and the same number of rows, each with a hole at a different place
+            n = rnd.choice([5, 9, 24]); start = datetime(2025, 10, 25, 22)
+            u1, u2 = rnd.choice(UNITS); aware = rnd.random() < 0.5
+            pair = []
+            holes = rnd.sample(range(1, n), 2)
+            for hole, unit in zip(holes, (u1, rnd.choice([u1, u2]))):
+                df = E.create_hourly_usage_df_from_list([rnd.choice([1.0, 2.5, 137.0, 41.5]) for _ in range(n + 1)], start, E.u(unit).units)
+                df = df.drop(df.index[hole])
+                if aware:
+                    df = df.tz_localize("UTC")
+                pair.append((E.ExplainableHourlyQuantities(df, f"hourly {unit}"), f"H({n}h hole@{hole} {unit}{' utc' if aware else ''})", aware))
+            (a, da, ta), (b, db, tb) = pair
+            classes.add("same_span_different_gaps"); classes.add("gapped_index"); classes.add("tz_aware" if aware else "naive")
+        else:
+            a, da, ta = operand(rnd, E, classes)
+            # bias towards same tz-kind so that hourly pairs are usually combinable
+            b, db, tb = operand(rnd, E, classes, tz=ta if (ta is not None and rnd.random() < 0.8) else None)
         descs.append((da, db)); C["pairs"] += 1
         ha = isinstance(a, E.ExplainableHourlyQuantities); hb = isinstance(b, E.ExplainableHourlyQuantities)
         if (ha and len(a.value) >= 2) or (hb and len(b.value) >= 2):
